@@ -108,7 +108,17 @@ def _run(prop, mod, overrides, base_viol):
     return "silent", None
 
 
-def run_for_property(prop, mod, ctx, max_seconds=600):
+def _meta(d):
+    import json
+
+    try:
+        with open(os.path.join(d, "meta.json")) as fh:
+            return json.load(fh)
+    except Exception:
+        return {}
+
+
+def run_for_property(prop, mod, ctx, max_seconds=900):
     t0 = time.time()
     base = {n: m.source for n, m in ctx.program.modules.items()}
     bobs, _ = report.run_rules(prop, mod.RULES, ctx)
@@ -129,6 +139,8 @@ def run_for_property(prop, mod, ctx, max_seconds=600):
         st, det = _run(prop, mod, ov, base_viol)
         if st == "fired":
             res["seeds_fired"] += 1
+        elif st == "error" and _meta(os.path.join(sd, name)).get("unreadable"):
+            res["seeds_unreadable"] = res.get("seeds_unreadable", 0) + 1  # documented: the check answers "cannot read"
         else:
             res["seeds_not_fired"].append({"id": name, "got": st, "detail": str(det)[:200]})
     rd = os.path.join(VERIF, "refactors")
@@ -146,6 +158,8 @@ def run_for_property(prop, mod, ctx, max_seconds=600):
         st, det = _run(prop, mod, ov, base_viol)
         if st == "silent":
             res["refactors_silent"] += 1
+        elif st == "error" and prop in (_meta(os.path.join(rd, name)).get("unreadable_by") or {}):
+            res["refactors_unreadable"] = res.get("refactors_unreadable", 0) + 1  # documented "cannot read"
         else:
             res["refactors_alarmed"].append({"id": name, "got": st, "detail": str(det)[:200]})
     res["wall_s"] = round(time.time() - t0, 2)
